@@ -544,9 +544,6 @@ int main(int argc, char **argv) {
                     Type *st = ci->getSrcTy();
                     if (st->isIntegerTy()) os << ",\"srcbits\":" << st->getIntegerBitWidth();
                 }
-                if (SE && I.getType()->isIntegerTy() && SE->isSCEVable(I.getType())) {
-                    os << ",\"vscev\":" << scevStr(SE->getSCEV(&I));
-                }
                 os << "}";
             }
         }
